@@ -12,6 +12,8 @@ type UnsupForm struct {
 	Comparable bool // usable as a map key
 	Embeddable bool // legal as an embedded field as written
 	NeedsUnion bool
+	// TopLevelOnly: the form names the declared type itself (type Odd *Odd)
+	TopLevelOnly bool
 }
 
 var UnsupForms = []UnsupForm{
@@ -38,6 +40,8 @@ var UnsupForms = []UnsupForm{
 	{Name: "stdlib-struct-with-pointers", Src: "url.URL", Imports: []string{"net/url"}, Embeddable: true},
 	{Name: "big-int", Src: "big.Int", Imports: []string{"math/big"}, Embeddable: true},
 	{Name: "lonely-interface", Src: "Lonely", Comparable: true, Embeddable: true},
+	{Name: "self-referencing-named-pointer", Src: "*Odd", Comparable: true, TopLevelOnly: true}, // type Odd *Odd
+	{Name: "self-referencing-pointer-to-slice", Src: "*[]Odd", Comparable: true, TopLevelOnly: true},
 }
 
 var UnsupPositions = []string{"top-level", "field", "slice-elem", "map-value", "map-key", "array-elem", "member-field", "embedded", "type-arg", "named-slice", "nested-field"}
@@ -59,6 +63,9 @@ func NewUnsupProg(idx int, f UnsupForm, pos string) (*Program, bool) {
 	box := &Decl{Name: "Box", Pkg: root, File: "other.go", Kind: DGeneric, TParams: "[T any]", Fields: []*Field{{Name: "V", Type: Raw("T")}}}
 	root.Decls = append(root.Decls, item, shape, circle, lonely, box)
 
+	if f.TopLevelOnly && pos != "top-level" {
+		return nil, false
+	}
 	form := Raw(f.Src, f.Imports...)
 	holder := &Decl{Name: "Holder", Pkg: root, File: "models.go", Kind: DStruct, Fields: []*Field{{Name: "Before", Type: Basic("string")}}}
 	switch pos {
